@@ -309,6 +309,8 @@ def run_check(prop_id, tier, seed):
             futs = [(j, ex.submit(run_shard, *j)) for j in jobs]
             for j, f in futs:
                 results.append((j, f.result()))
+    if os.environ.get("VERIF_DEBUG"):
+        print("shard walls:", ["%s/%d:%.0fs" % (mod.PARTS[j[1]].name, j[4], r.wall) for j, r in results])
     for j, r in results:
         total.merge(r)
         pname = mod.PARTS[j[1]].name
